@@ -342,9 +342,89 @@ func checkEndMarkerPos(c *Ctx, g *ebnfGrammar) {
 		}
 	})
 	if fd == nil {
-		c.Lost("R20.5", "the parser's next-token wrapper")
-		return
+		// another shape of the same wrapper: the method that calls the lexer's NextToken and hands the token out through a
+		// pointer parameter. The end-marker path must then write the whole token or reset its position: the caller's variable
+		// still holds the previous token.
+		var cand *ast.FuncDecl
+		n := 0
+		AllFuncDecls(p, func(f *ast.FuncDecl) {
+			if f.Recv == nil || f.Body == nil {
+				return
+			}
+			calls := false
+			ast.Inspect(f.Body, func(nd ast.Node) bool {
+				if call, ok := nd.(*ast.CallExpr); ok {
+					if sel, ok := call.Fun.(*ast.SelectorExpr); ok && sel.Sel.Name == "NextToken" {
+						calls = true
+					}
+				}
+				return true
+			})
+			fo, _ := p.TypesInfo.Defs[f.Name].(*types.Func)
+			sig := fo.Type().(*types.Signature)
+			hasOut := false
+			for i := 0; i < sig.Params().Len(); i++ {
+				if pt, ok := sig.Params().At(i).Type().(*types.Pointer); ok && typeIs(pt.Elem(), "lexer", "Token") {
+					hasOut = true
+				}
+			}
+			if calls && hasOut {
+				cand = f
+				n++
+			}
+		})
+		if n != 1 {
+			c.Lost("R20.5", "the parser's next-token wrapper")
+			return
+		}
+		fn := c.SSAFunc(p, cand)
+		var out *ssa.Parameter
+		for _, prm := range fn.Params {
+			if pt, ok := prm.Type().(*types.Pointer); ok && typeIs(pt.Elem(), "lexer", "Token") {
+				out = prm
+			}
+		}
+		bad := token.NoPos
+		for _, b := range fn.Blocks {
+			setsTerminal, setsPosOrAll := false, false
+			for _, in := range b.Instrs {
+				st, ok := in.(*ssa.Store)
+				if !ok {
+					continue
+				}
+				if st.Addr == ssa.Value(out) {
+					setsPosOrAll = true
+				}
+				if fa, ok := st.Addr.(*ssa.FieldAddr); ok && fa.X == ssa.Value(out) {
+					switch fieldName(fa) {
+					case "Terminal":
+						setsTerminal = true
+					case "Pos":
+						setsPosOrAll = true
+					}
+				}
+			}
+			if setsTerminal && !setsPosOrAll {
+				// a whole-token store on every path to this block also does
+				dominated := false
+				for d := b.Idom(); d != nil; d = d.Idom() {
+					for _, in := range d.Instrs {
+						if st, ok := in.(*ssa.Store); ok && st.Addr == ssa.Value(out) {
+							dominated = true
+						}
+					}
+				}
+				if !dominated {
+					bad = b.Instrs[0].Pos()
+				}
+			}
+		}
+		c.Check("R20.5", "the end-marker token's position is not overwritten with another token's", cand.Pos(), bad == token.NoPos,
+			"the wrapper fills the caller's token through a pointer and, where it makes it the end marker, sets the terminal but neither the position nor the whole token: the end marker keeps the position of the token the variable held before, and a specification that ends too early is reported at an earlier, innocent token",
+			"a specification cut off after any token, e.g. `grammar x; a = b`")
+		goto scanFn
 	}
+	{
 	fn := c.SSAFunc(p, fd)
 	posStore := false
 	for _, b := range fn.Blocks {
@@ -357,6 +437,8 @@ func checkEndMarkerPos(c *Ctx, g *ebnfGrammar) {
 		}
 	}
 	c.Check("R20.5", "the end-marker token's position is not overwritten with another token's", fd.Pos(), !posStore, "the wrapper stores into the token's Pos")
+	}
+scanFn:
 	// scan function: every error return carries the zero token
 	lp := c.Pkg("internal/ebnf/lexer")
 	if lp == nil {
